@@ -3,6 +3,7 @@
 mod astdump;
 mod c01;
 mod c06;
+mod c07;
 mod c08;
 mod c10;
 mod genfilter;
@@ -61,6 +62,7 @@ fn main() {
     std::panic::set_hook(Box::new(|_| {}));
     let a = parse_args();
     match a.cmd.as_str() {
+        "c07" => c07::generate(a.seed, a.n, a.thorough).write(&a.out, a.shards, a.only),
         "c08" => c08::generate(a.seed, a.n, a.thorough).write(&a.out, a.shards, a.only),
         "c10" => c10::generate(a.seed, a.n, a.thorough).write(&a.out, a.shards, a.only),
         "c13" => meta::generate_c13(a.seed, a.n, a.thorough).write(&a.out, a.shards, a.only),
